@@ -243,6 +243,9 @@ func ObserveSeg(resp Resp, r *TLRep) SegObs {
 				return o
 			}
 			o.Tfdt, o.Seq, o.Dur, o.Payload, o.NSamples = si.Tfdt, si.Seq, si.Dur, si.Payload, si.NSamples
+			if si.HasSidx && (si.SidxEPT != si.Tfdt || si.SidxTimescale != r.Timescale) {
+				o.FragFault = fmt.Sprintf("sidx announces earliest presentation time %d at timescale %d, the segment starts at %d at timescale %d", si.SidxEPT, si.SidxTimescale, si.Tfdt, r.Timescale)
+			}
 			t := si.Tfdt
 			for k := range si.FragTfdt {
 				if si.FragSeq[k] != si.Seq {
